@@ -20,7 +20,7 @@ LEVEL = "exploration"
 TECHNIQUE = ("runtime monitoring: wire recorder on the SOCKS transport + independent RFC 1928 request parser as oracle; "
              "complete enumeration of name lengths 1..300 (quick) and of all 65536 ports (thorough), boundary and random "
              "IPv4/IPv6 literals in six text forms")
-LEVEL_TEXT = ("Held on the executions observed: every written byte of ~49k (quick) to ~950k (thorough) "
+LEVEL_TEXT = ("Held on the executions observed: every written byte of ~57k (quick) to ~990k (thorough) "
               "handshakes decoded by an independent parser and compared with the requested target/port/command. "
               "Name lengths 1..300 and (thorough) all 65536 ports are enumerated completely; address literals and name "
               "contents are boundary values plus seeded samples - not a proof for unexplored literals/names.")
@@ -43,7 +43,9 @@ ASSUMPTIONS = [
     "RESOLVE_PTR of a hostname is outside the model (Tor rejects it): counted, only the greeting clauses are judged",
     "un-encodable = ASCII name longer than 255 bytes or any non-ASCII character; 'refused with an error' = an exception from the API call / dataReceived, or the returned Deferred failing by quiescence",
     "an exception escaping dataReceived drops the connection (connectionLost with that failure), as the Twisted reactor does",
-    "TLS wrapping (tls=True) is not driven; ports outside 0..65535 and empty names are not generated",
+    "TorSocksEndpoint(tls=True) and tls=<client options> are driven up to the first TLS bytes (what follows the success reply is the TLS layer's ClientHello, not SOCKS); with tls=True a name that optionsForClientTLS itself rejects is outside the model (counted); no TLS server is simulated",
+    "a trailing root dot is part of the name the caller gave: it must be sent (or the name refused), never silently stripped",
+    "ports outside 0..65535 and empty names are not generated",
 ]
 TRUSTED_BASE = ["vf.refs.socks5 (RFC 1928 parser, IPv4/IPv6 text formatter; self-tested, cross-checked against ipaddress)",
                 "vf.wire.RecTransport, fake IStreamClientEndpoint", "Twisted Protocol.makeConnection / inlineCallbacks"]
@@ -60,7 +62,8 @@ ANCHORS = [
 FLOORS = {
     "quick": {"evaluations": 4500, "greetings_decoded": 4500, "requests_decoded": 2900, "unencodable_judged": 400,
               "ports_distinct_shard_sum": 900, "checked_after_half_method_reply": 1000, "zoned_literals_judged": 250,
-              "onion_names_judged": 80, "foldable_nonascii_judged": 200,
+              "onion_names_judged": 80, "foldable_nonascii_judged": 200, "tls_entry_point_cases_judged": 40,
+              "rooted_names_judged": 100,
               "reach:txtorcon.socks:_SocksMachine._send_connect_request": 2000,
               "reach:txtorcon.socks:_SocksMachine._send_resolve_request": 1500,
               "reach:txtorcon.socks:_SocksMachine._send_resolve_ptr_request": 700,
@@ -68,6 +71,7 @@ FLOORS = {
     "thorough": {"evaluations": 90000, "greetings_decoded": 90000, "requests_decoded": 60000,
                  "unencodable_judged": 4000, "ports_distinct_shard_sum": 65536, "checked_after_half_method_reply": 14000,
                  "zoned_literals_judged": 900, "onion_names_judged": 150, "foldable_nonascii_judged": 1700,
+                 "tls_entry_point_cases_judged": 400, "rooted_names_judged": 1200,
                  "reach:txtorcon.socks:_SocksMachine._send_connect_request": 39000,
                  "reach:txtorcon.socks:_SocksMachine._send_resolve_request": 30000,
                  "reach:txtorcon.socks:_SocksMachine._send_resolve_ptr_request": 17000,
@@ -216,7 +220,7 @@ def kind_class(kind):
     return {"ldh": "ldh-name", "label": "ldh-name", "printable": "printable-name", "ipv4": "ipv4-literal",
             "ipv6": "ipv6-literal", "ipv6zone": "ipv6-zoned-literal", "overlong": "overlong-name",
             "nonascii": "non-ascii-name", "foldable": "non-ascii-name-with-ascii-case-or-nfkc-image",
-            "onion": "onion-name"}[kind]
+            "onion": "onion-name", "rooted": "absolute-name-trailing-dot"}[kind]
 
 
 def input_class(case):
@@ -257,6 +261,7 @@ class Observation(object):
         self.phase = {}         # name -> bytes written so far
         self.outcome = None
         self.client_closed = False
+        self.skip = None        # reason this case is outside the model (counted, not judged)
 
 
 def execute(case):
@@ -340,7 +345,22 @@ def execute(case):
             except Exception:
                 target = host
         try:
-            if drive == "endpoint":
+            if drive in ("endpoint-tls", "endpoint-tls-ctx"):
+                from twisted.internet.ssl import optionsForClientTLS
+                if drive == "endpoint-tls":
+                    # tls=True builds optionsForClientTLS(host): a name the TLS layer itself cannot take
+                    # (IDNA rules, labels > 63 ...) is legitimately refused before SOCKS is involved
+                    try:
+                        optionsForClientTLS(host)
+                    except Exception as e:
+                        obs.skip = "tls-options-unbuildable:" + type(e).__name__
+                        obs.phase["A"] = b""
+                        return obs
+                    tls_arg = True
+                else:
+                    tls_arg = optionsForClientTLS("verif.example")
+                d = socks.TorSocksEndpoint(proxy, target, port, tls=tls_arg).connect(Factory.forProtocol(Protocol))
+            elif drive == "endpoint":
                 d = socks.TorSocksEndpoint(proxy, target, port).connect(Factory.forProtocol(Protocol))
             elif drive == "endpoint-deferred":
                 d = socks.TorSocksEndpoint(defer.succeed(proxy), target, port).connect(Factory.forProtocol(Protocol))
@@ -563,7 +583,11 @@ def judge(case, obs, rec):
     else:
         if r["port"] not in (0, case["port"]):
             V("request-port", {"request_tail": R[-6:], "port": r["port"], "want": [0, case["port"]]})
-    if "D" in obs.phase:
+    if "D" in obs.phase and case["drive"].startswith("endpoint-tls"):
+        # after the success reply the TLS layer speaks (ClientHello): application-level bytes, not SOCKS
+        if len(obs.phase["D"]) > len(C):
+            rec.count("tls_client_hello_seen_after_success")
+    elif "D" in obs.phase:
         rec.count("checked_after_final_reply")
         if obs.phase["D"] != C:
             V("extra-bytes-after-request", {"extra": obs.phase["D"][len(C):][:60], "final": case["final"]})
@@ -575,6 +599,15 @@ PORTS_SEEN = set()
 
 def run_case(case, rec):
     obs = execute(case)
+    if obs.skip:
+        rec.count("out_of_model_" + obs.skip.split(":")[0])
+        rec.seen("out_of_model_reasons", obs.skip)
+        rec.case(case, nontrivial=False)
+        return []
+    if case["drive"].startswith("endpoint-tls"):
+        rec.count("tls_entry_point_cases_judged")
+    if case["kind"] == "rooted":
+        rec.count("rooted_names_judged")
     bad, nontrivial = judge(case, obs, rec)
     rec.case(case, nontrivial=nontrivial)
     if obs.errors:
@@ -762,6 +795,54 @@ def cases_hostile(spec):
     for n in (1, 9, 255, 256):
         for drive in drives_for("RESOLVE_PTR"):
             out.append(mk("RESOLVE_PTR", "ldh" if n < 256 else "overlong", ldh_name(rnd, n), 0, drive))
+    out.extend(cases_tls(spec, rnd))
+    return out
+
+
+def strict_hostname(rnd, labels=None):
+    """a host name every layer accepts: letter/digit labels (hyphen inside), 1..63 bytes each"""
+    out = []
+    for _ in range(labels or rnd.choice([1, 2, 2, 3, 4])):
+        n = rnd.choice([1, 2, 3, 7, 12, 63])
+        lab = [rnd.choice("abcdefghijklmnopqrstuvwxyz0123456789") for _ in range(n)]
+        if n >= 3 and rnd.random() < 0.3:
+            lab[rnd.randrange(1, n - 1)] = "-"
+        if lab[0].isdigit() and rnd.random() < 0.7:
+            lab[0] = "x"
+        out.append("".join(lab))
+    return ".".join(out)
+
+
+def cases_tls(spec, rnd):
+    """absolute names (trailing root dot) through every entry point, and TorSocksEndpoint(tls=True / tls=<options>):
+    the TLS wrapping must not change what is asked of the SOCKS server"""
+    out = []
+    i = 0
+    names = []
+    for _ in range(spec.get("n_tls", 25)):
+        base = strict_hostname(rnd)
+        names += [("ldh", base), ("rooted", base + "."), ("rooted", base.upper() + ".") if rnd.random() < 0.3 else ("ldh", base.title())]
+        ob = onion_body(rnd, "lower")
+        names += [("onion", ob + ".onion"), ("rooted", ob + ".onion."), ("rooted", strict_hostname(rnd, 1) + ".")]
+    names += [("rooted", "example.com."), ("rooted", "a."), ("rooted", "x" * 63 + "." + "y" * 63 + "."),
+              ("nonascii", "b\u00fccher.example"), ("nonascii", "b\u00fccher.example."), ("foldable", "\u212aelvin.example."),
+              ("nonascii", "\u4f8b\u3048.jp")]
+    for (kind, host) in names:
+        if is_ip_literal(host):
+            continue
+        for drive in ["endpoint-tls", "endpoint-tls-ctx"] + (drives_for("CONNECT") if kind == "rooted" else []):
+            i += 1
+            out.append(mk("CONNECT", kind, host, _rot(BOUNDARY_PORTS, i), drive, msplit=(i % 3 == 0),
+                          final=_rot(["none", "success", "refused"], i),
+                          hostbytes=(kind in ("ldh", "rooted", "onion") and i % 5 == 0)))
+        if kind == "rooted":
+            for drive in drives_for("RESOLVE"):
+                i += 1
+                out.append(mk("RESOLVE", kind, host, 0, drive, msplit=(i % 3 == 0)))
+    for b4 in ("01020304", "7f000001", "ffffffff"):
+        b = bytes.fromhex(b4)
+        for drive in ("endpoint-tls", "endpoint-tls-ctx"):
+            out.append(mk("CONNECT", "ipv4", S.ipv4_text(b), 443, drive, packed=b))
     return out
 
 
@@ -858,7 +939,7 @@ def plan(tier, seed):
         for lo in range(0, 65536, step):
             specs.append({"mode": "ports", "plo": lo, "phi": lo + step - 1, "timeout_s": 3000})
         for k in range(4):
-            specs.append({"mode": "hostile", "n": 400, "timeout_s": 3000})
+            specs.append({"mode": "hostile", "n": 400, "n_tls": 120, "timeout_s": 3000})
         for k in range(8):
             specs.append({"mode": "random", "n": 30000, "timeout_s": 3000})
     return specs
